@@ -152,16 +152,28 @@ def r05_7_defaults(ctx, rid='R05.7'):
             continue
         lo = loops[0]
         it = b.alpha.text(lo.iter)
-        if not (it.startswith('enumerate(') and '.defaults' in it and 'getfullargspec(' in it and S.whole_collection_loop(lo)
-                and isinstance(lo.target, ast.Tuple) and len(lo.target.elts) == 2):
+        if not ((it.startswith('enumerate(') or it.startswith('zip(')) and '.defaults' in it and 'getfullargspec(' in it
+                and S.whole_collection_loop(lo) and isinstance(lo.target, ast.Tuple) and len(lo.target.elts) == 2):
             continue
         iv, dv = (norm(x) for x in lo.target.elts)
         ivt = '<each:%s>[0]' % it
         keyv = n.targets[0].slice
         kk = b.alpha.rewrite(keyv)
-        if isinstance(kk, ast.Subscript) and norm(kk.value).endswith('.args') and isinstance(kk.slice, ast.BinOp) \
+        fb_here = None
+        if it.startswith('enumerate(') and isinstance(kk, ast.Subscript) and norm(kk.value).endswith('.args') and isinstance(kk.slice, ast.BinOp) \
                 and isinstance(kk.slice.op, ast.Add) and ivt in (norm(kk.slice.left), norm(kk.slice.right)) and norm(n.value) == dv:
-            fb = norm(kk.slice.right) if norm(kk.slice.left) == ivt else norm(kk.slice.left)
+            fb_here = norm(kk.slice.right) if norm(kk.slice.left) == ivt else norm(kk.slice.left)
+        elif it.startswith('zip('):
+            # for name, default in zip(ARGS[FO:], DEFAULTS): result[name] = default
+            zi = b.alpha.rewrite(lo.iter)
+            if isinstance(zi, ast.Call) and len(zi.args) == 2 and not zi.keywords:
+                names_, defs_ = zi.args
+                if (isinstance(names_, ast.Subscript) and isinstance(names_.slice, ast.Slice) and names_.slice.upper is None
+                        and names_.slice.step is None and names_.slice.lower is not None and norm(names_.value).endswith('.args')
+                        and '.defaults' in norm(defs_) and norm(kk) == ivt and norm(n.value) == dv):
+                    fb_here = norm(names_.slice.lower)
+        if fb_here is not None:
+            fb = fb_here
             inner = [x for x in b.cfg.guard_nodes(b.nid(n)) if any(y is lo for y in S._ancestors_list(x.ast))]
             ok = not inner
             # the override
@@ -175,7 +187,8 @@ def r05_7_defaults(ctx, rid='R05.7'):
                     table = ig[0].ast.comparators[0]
                     srcs = [norm(x) for x in assigned_from(b, norm(table))] if isinstance(table, ast.Name) else [norm(table)]
                     cls_p = b.fi.params[0]
-                    if '%s._yatiml_defaults' % cls_p in srcs and isinstance(m.value, ast.Subscript) \
+                    if any(s_ == '%s._yatiml_defaults' % cls_p or s_.startswith("getattr(%s, '_yatiml_defaults'" % cls_p) for s_ in srcs) \
+                            and isinstance(m.value, ast.Subscript) \
                             and norm(m.value.value) == norm(table) and b.alpha.text(m.value.slice) == kt:
                         ov_ok = True
             r.check(ov_ok, 'override: default = user_defaults[name] exactly when name in user_defaults', b.key('override'), b.loc(),
